@@ -111,3 +111,57 @@ def native_confirm(nat, v):
     obls = obligations_for(cells, lay, c, obsmodel.parse_dump(sec['gen1']))
     locus = v['id'].split('/', 2)[-1]
     return any(o.bad is True and o.locus == locus for o in obls)
+
+# ---- translator validation (DESIGN.md 2.6-1): the engine, run CONCRETELY on the repository's own kind of inputs, must
+# produce exactly the observations of the same harness compiled natively with g++ against the real std::fstream.
+def _vendor_prefix(path, nframes):
+    """first nframes frames of a vendor file, re-headed (header last-frame word and POINT:FRAMES patched)"""
+    b = bytearray(open(path, 'rb').read())
+    D = c3dref.decode(list(b)); H = D['H']
+    P, tot, sub = H['nb_points'], H['analog_total'], H['sub']
+    per = 4 * (4 * P + tot)
+    have = H['last'] - H['first'] + 1
+    n = min(nframes, have)
+    last = H['first'] + n - 1
+    b[8:10] = last.to_bytes(2, 'little')
+    fr = D['par']('POINT', 'FRAMES')
+    b[fr['valpos']:fr['valpos'] + 2] = n.to_bytes(2, 'little')
+    start = 512 * (D['data_block'] - 1)
+    return bytes(b[:start + n * per])
+
+def extra_validation(nat, results, tier):
+    import os, random
+    from irsym import api as _api
+    repo = os.environ.get('VERIF_REPO', '/repo')
+    eng = _api.load_engine(os.path.join(nat.workdir, 'O1', 'mO1.ll'))
+    inputs = []
+    # (a) a file written natively by the real library in the shape of the suite's CreateWriteAndReadBack test
+    rnd = random.Random(3); syms = {}
+    for tag in 'xyzra':
+        for k in range(400): syms['%s#%d' % (tag, k)] = rnd.getrandbits(32)
+    import scenarios.c01 as c01
+    wr = nat.run({'harness': 'h_c01.cpp', 'entry': 'h_c01', 'cfg': c01.base(P=3, C=3, S=2, F=3), 'syms': syms})
+    if 'out.c3d' in wr['files']: inputs.append(('library-written 3x3x2x3', wr['files']['out.c3d']))
+    else: return 0, ['translator validation: native writer produced no file (rc %s)' % wr['rc']]
+    # (b) the repository's vendor files
+    cf = os.path.join(repo, 'test', 'c3dFiles')
+    if tier == 'thorough':
+        inputs.append(('Optotrak.c3d', open(os.path.join(cf, 'Optotrak.c3d'), 'rb').read()))
+        inputs.append(('Vicon.c3d first 40 frames', _vendor_prefix(os.path.join(cf, 'Vicon.c3d'), 40)))
+        inputs.append(('Qualisys.c3d first 40 frames', _vendor_prefix(os.path.join(cf, 'Qualisys.c3d'), 40)))
+    else:
+        inputs.append(('Vicon.c3d first 2 frames', _vendor_prefix(os.path.join(cf, 'Vicon.c3d'), 2)))
+        inputs.append(('Qualisys.c3d first 2 frames', _vendor_prefix(os.path.join(cf, 'Qualisys.c3d'), 2)))
+    ok = 0; bad = []
+    cfg = {'gens': 0, 'dump': 1, 'obsfiles': 0}
+    for name, data in inputs:
+        n = nat.run({'harness': 'h_load.cpp', 'entry': 'h_load', 'cfg': cfg, 'files': {'in.c3d': data.hex()}}, timeout=600)
+        paths = _api.run_fn(eng, 'h_load', cfg=cfg, files={'in.c3d': list(data)}, wall=1200, maxsteps=400_000_000)
+        if len(paths) != 1 or paths[0].kind != 'return': bad.append('translator validation %s: engine ended with %s' % (name, [(p.kind, str(p.info)[:80]) for p in paths][:2])); continue
+        eo = [(l, v) for l, v in paths[0].st.obs]; no = n['obs']
+        no = [x for x in no if not x[0].startswith('#reached')]
+        if len(eo) != len(no): bad.append('translator validation %s: %d observations in the engine, %d natively' % (name, len(eo), len(no))); continue
+        diff = [(i, a, b) for i, (a, b) in enumerate(zip(eo, no)) if a[0] != b[0] or (a[1] != b[1] if not isinstance(a[1], list) else list(a[1]) != list(b[1]))]
+        if diff: bad.append('translator validation %s: observation %d differs: engine %s native %s' % (name, diff[0][0], str(diff[0][1])[:80], str(diff[0][2])[:80]))
+        else: ok += 1
+    return ok, bad
